@@ -1,5 +1,5 @@
 (* Proofs about the decision-table model of `swh identify` (model/Cli.v).
-   The domain is finite (2400 configurations): every universally quantified
+   The domain is finite (2640 configurations): every universally quantified
    statement is proved by evaluating a boolean check over the enumeration
    [all_cfgs] inside the kernel (vm_compute) and lifting it with
    [forallb_forall] and the completeness of the enumeration. *)
@@ -33,7 +33,7 @@ Qed.
 
 (* an injection of configurations into N: the index in the enumeration *)
 Definition cfg_code (c : cfg) : N :=
-  (let k : N := match arg c with AFile => 0 | ADir => 1 | ALinkFile => 2 | ALinkDir => 3 | AStdin => 4 | AUrl => 5 | AGitRepo => 6 | AMissing => 7 | ABadUrl => 8 | ARefusedUrl => 9 end in
+  (let k : N := match arg c with AFile => 0 | ADir => 1 | ALinkFile => 2 | ALinkDir => 3 | AStdin => 4 | AUrl => 5 | AGitRepo => 6 | AMissing => 7 | ABadUrl => 8 | ARefusedUrl => 9 | ABadRefsRepo => 10 end in
   let t : N := match ty c with TAuto => 0 | TContent => 1 | TDirectory => 2 | TOrigin => 3 | TSnapshot => 4 end in
   let d : N := if deref c then 0 else 1 in
   let f : N := if fname c then 0 else 1 in
@@ -60,7 +60,7 @@ Proof.
     + apply IH. exact Hl.
 Qed.
 
-Theorem all_cfgs_count : length all_cfgs = 2400 /\ NoDup all_cfgs.
+Theorem all_cfgs_count : length all_cfgs = 2640 /\ NoDup all_cfgs.
 Proof.
   split; [vm_compute; reflexivity|].
   apply (NoDup_map_inv cfg_code). apply nodupb_sound. vm_compute. reflexivity.
@@ -84,13 +84,13 @@ Proof. intros a b; destruct a, b; cbn; split; intros H; try reflexivity; try dis
 Lemma outcome_eqb_eq : forall a b, outcome_eqb a b = true <-> a = b.
 Proof.
   intros a b; split.
-  - destruct a as [o e s l| | | |c], b as [o' e' s' l'| | | |c']; cbn; intros H;
+  - destruct a as [o e s l| | | | |c], b as [o' e' s' l'| | | | |c']; cbn; intros H;
       try reflexivity; try discriminate.
     + apply andb_prop in H as [H Hl]. apply andb_prop in H as [H Hs]. apply andb_prop in H as [Ho He].
       apply obj_eqb_eq in Ho. apply eqb_prop in He. apply eqb_prop in Hs. apply eqb_prop in Hl.
       subst. reflexivity.
     + apply crash_eqb_eq in H. subst. reflexivity.
-  - intros ->. destruct b as [o e s l| | | |c]; cbn; try reflexivity.
+  - intros ->. destruct b as [o e s l| | | | |c]; cbn; try reflexivity.
     + rewrite !eqb_reflx. destruct o; reflexivity.
     + destruct c; reflexivity.
 Qed.
@@ -250,6 +250,23 @@ Theorem agree_refuted_old_originuncaught : exists c, in_scope c = true /\ in_sco
   spec c = Usage /\ identify_model c = spec c.
 Proof. exists (mkCfg ARefusedUrl TAuto true true false VNone false). repeat split; vm_compute; reflexivity. Qed.
 
+(* swh identify -t snapshot <repository with an empty packed-refs file>: dulwich's StopIteration was taken for
+   the end of the results: nothing printed, exit code 0 *)
+Theorem agree_refuted_old_stopswallowed : exists c, in_scope c = true /\ in_scope_literal c = true /\
+  identify_old_stopswallowed c = Silent /\ spec c = Usage /\ identify_model c = spec c.
+Proof. exists (mkCfg ABadRefsRepo TSnapshot true true false VNone false). repeat split; vm_compute; reflexivity. Qed.
+
+(* ... and in an invocation with several arguments the run stopped WITHOUT an error, dropping that argument and all
+   the following ones:  swh identify -t snapshot REPO1 BADREPO REPO2  printed one line and exited 0 *)
+Theorem many_refuted_old_stopswallowed :
+  let c := mkCfg AFile TSnapshot true true false VNone false in
+  let ks := [AGitRepo; ABadRefsRepo; AGitRepo] in
+  in_scope_many c ks = true /\
+  identify_many_gen old_stopswallowed c ks = MOut [(OSnapshot, false, true, false)] MDone /\
+  identify_many c ks = MOut [(OSnapshot, false, true, false)] MUsageEnd /\
+  spec_many c ks = identify_many c ks.
+Proof. repeat split; vm_compute; reflexivity. Qed.
+
 (* each old behaviour broke exactly its class of in-scope configurations *)
 Definition old_exact_check (c : cfg) : bool :=
   implb (in_scope c)
@@ -257,31 +274,35 @@ Definition old_exact_check (c : cfg) : bool :=
      && Bool.eqb (negb (outcome_eqb (identify_old_rectype c) (spec c))) (old_rectype_class c)
      && Bool.eqb (negb (outcome_eqb (identify_old_autolink c) (spec c))) (old_autolink_class c)
      && Bool.eqb (negb (outcome_eqb (identify_old_recfollows c) (spec c))) (old_recfollows_class c)
-     && Bool.eqb (negb (outcome_eqb (identify_old_originuncaught c) (spec c))) (old_originuncaught_class c)).
+     && Bool.eqb (negb (outcome_eqb (identify_old_originuncaught c) (spec c))) (old_originuncaught_class c)
+     && Bool.eqb (negb (outcome_eqb (identify_old_stopswallowed c) (spec c))) (old_stopswallowed_class c)).
 
 Theorem old_deviations_exact : forall c, in_scope c = true ->
   (identify_old_realpath c <> spec c <-> old_realpath_class c = true) /\
   (identify_old_rectype c <> spec c <-> old_rectype_class c = true) /\
   (identify_old_autolink c <> spec c <-> old_autolink_class c = true) /\
   (identify_old_recfollows c <> spec c <-> old_recfollows_class c = true) /\
-  (identify_old_originuncaught c <> spec c <-> old_originuncaught_class c = true).
+  (identify_old_originuncaught c <> spec c <-> old_originuncaught_class c = true) /\
+  (identify_old_stopswallowed c <> spec c <-> old_stopswallowed_class c = true).
 Proof.
   intros c Hs.
   assert (H : old_exact_check c = true) by (revert c Hs; intros c _; revert c; apply sweep; vm_compute; reflexivity).
   unfold old_exact_check in H. rewrite Hs in H. cbn [negb andb implb] in H.
-  apply andb_prop in H as [H H5]. apply andb_prop in H as [H H4]. apply andb_prop in H as [H H3].
-  apply andb_prop in H as [H1 H2].
+  apply andb_prop in H as [H H6]. apply andb_prop in H as [H H5]. apply andb_prop in H as [H H4].
+  apply andb_prop in H as [H H3]. apply andb_prop in H as [H1 H2].
   apply eqb_prop in H1. apply eqb_prop in H2. apply eqb_prop in H3. apply eqb_prop in H4. apply eqb_prop in H5.
-  rewrite <- H1, <- H2, <- H3, <- H4, <- H5. rewrite !negb_true_iff.
+  apply eqb_prop in H6.
+  rewrite <- H1, <- H2, <- H3, <- H4, <- H5, <- H6. rewrite !negb_true_iff.
   repeat split; intros H; apply outcome_eqb_neq; exact H.
 Qed.
 
 Theorem old_classes_sizes :
   length (filter (fun c => in_scope c && old_realpath_class c) all_cfgs) = 24 /\
-  length (filter (fun c => in_scope c && old_rectype_class c) all_cfgs) = 20 /\
+  length (filter (fun c => in_scope c && old_rectype_class c) all_cfgs) = 28 /\
   length (filter (fun c => in_scope c && old_autolink_class c) all_cfgs) = 16 /\
   length (filter (fun c => in_scope c && old_recfollows_class c) all_cfgs) = 24 /\
-  length (filter (fun c => in_scope c && old_originuncaught_class c) all_cfgs) = 96.
+  length (filter (fun c => in_scope c && old_originuncaught_class c) all_cfgs) = 96 /\
+  length (filter (fun c => in_scope c && old_stopswallowed_class c) all_cfgs) = 24.
 Proof. repeat split; vm_compute; reflexivity. Qed.
 
 (* ------------------------------------------------------------------ *)
@@ -326,8 +347,8 @@ Theorem in_scope_satisfiable :
              identify_model c = Print ODirAtLinkTarget true false true /\ spec c = identify_model c) /\
   (exists c, in_scope c = true /\ nondefault c >= 3 /\
              identify_model c = Exit0 /\ spec c = Exit0) /\
-  length (filter in_scope all_cfgs) = 912 /\
-  length (filter in_scope_literal all_cfgs) = 864.
+  length (filter in_scope all_cfgs) = 1056 /\
+  length (filter in_scope_literal all_cfgs) = 960.
 Proof.
   split; [|split; [|split]].
   - exists (mkCfg ALinkDir TDirectory true false true VNone true). repeat split; vm_compute; try reflexivity. lia.
@@ -394,7 +415,7 @@ Proof.
   intros c Hs Hr Hv.
   assert (H : object_check c = true) by (revert c Hs Hr Hv; intros c _ _ _; revert c; apply sweep; vm_compute; reflexivity).
   unfold object_check, has_verify in H. rewrite Hs, Hr, Hv in H. cbn [negb andb implb] in H.
-  destruct (spec c) as [o ex sh ls| | | |cr]; try discriminate.
+  destruct (spec c) as [o ex sh ls| | | | |cr]; try discriminate.
   - apply andb_prop in H as [H H3]. apply andb_prop in H as [H1 H2].
     apply (decb_eq _ res_eq_dec) in H1. apply eqb_prop in H2. rewrite negb_true_iff in H3. auto.
   - apply (decb_eq _ res_eq_dec) in H. exact H.
@@ -412,7 +433,7 @@ Proof.
     assert (Hr' : recur (with_arg c k) = false) by (destruct c; exact Hr).
     assert (Hv' : ver (with_arg c k) = VNone) by (destruct c; exact Hv).
     specialize (Ho Hr' Hv').
-    destruct (spec (with_arg c k)) as [o ex sh ls| | | |cr]; try contradiction.
+    destruct (spec (with_arg c k)) as [o ex sh ls| | | | |cr]; try contradiction.
     + destruct Ho as [Ho [Hsh Hls]]. rewrite Ho. rewrite IH by (intros k' Hk'; apply Hin; right; exact Hk').
       subst sh ls. destruct c; reflexivity.
     + rewrite Ho. reflexivity.
